@@ -32,6 +32,27 @@ func orderedBehindSuccess(p *load.Program, r *kit.Report, rule string, f *ssa.Fu
 		if i > 0 {
 			eg := errNilGuards(f, prev)
 			ok, path := kit.DominatedByEdges(f, call, edgesOf(eg, true), nil, p.Pos)
+			if !(ok && len(eg) > 0) {
+				// the failure may be parked in a variable that every later step tests (`if acc == nil {
+				// acc = step() }`): decided on the flow — the step is not reachable around the previous
+				// one, nor after it with its error non-nil
+				if errV := errValueOf(prev); errV != nil {
+					var from ssa.Instruction = prev
+					if ex, isEx := errV.(*ssa.Extract); isEx {
+						from = ex
+					}
+					around := kit.Reach(f, []kit.Pt{kit.Entry(f)}, kit.Opts{StopAt: kit.InstrSet(prev)})
+					failed := kit.Reach(f, kit.After(from), kit.Opts{AssumeNonNil: []ssa.Value{errV}})
+					switch {
+					case around.Has(call):
+						path = around.PathTo(call, p.Pos)
+					case failed.Has(call):
+						path = failed.PathTo(call, p.Pos)
+					default:
+						ok, eg = true, append(eg, kit.Guard{})
+					}
+				}
+			}
 			r.Check(ok && len(eg) > 0, rule, key, posOf(p, call), "runs only after "+kit.ShortID(ids[i-1])+" succeeded",
 				kit.ShortID(id)+" can run although "+kit.ShortID(ids[i-1])+" failed or was skipped: "+path)
 		} else {
@@ -95,7 +116,7 @@ func checkC10(p *load.Program, r *kit.Report) {
 	r.NotDecided = "the statement itself (all observables equal before/after Clean for every tree): consolidation correctness for three or more generations as values, file-boundary and prune-depth arithmetic over histories. Decided are ordering, coverage-of-every-branch, label and all-or-nothing facts that are necessary for it."
 	r.Rule("ORDER", "clean runs consolidate → saveMainBranch → prune → saveInvalidHashes, each behind the previous nil-error edge; in prune every branch is saved before it is pruned or dropped and a Save error returns before repo.branches is replaced; nothing is added to a branch and no tip is stored after the automatic clean in ProcessHeader", 6)
 	r.Rule("NO-EFFECT-BEFORE-ERROR", "consolidate replaces repo.branches and repo.longest only after its last error return", 3)
-	r.Rule("COVER-ALL", "consolidate re-attaches (Connect) every branch other than the old root and the old tip; prune lowers the prune height to the fork point of every side branch (no branch is skipped)", 2)
+	r.Rule("COVER-ALL", "consolidate re-attaches (Connect) every branch other than the old root and the old tip, searching the list under construction for the parent; prune lowers the prune height to the fork point of every side branch (no branch is skipped)", 2)
 	r.Rule("HEIGHT-LABEL", "labels written by Consolidate/Truncate/Connect equal positional heights (shared with C09)", 3)
 	r.Rule("GUARD-DOM", "Prune(n) is called with n = pruneHeight - PrunedLowestHeight() behind PrunedLowestHeight() < pruneHeight; the automatic clean runs only when Height()%10000 == 0 on the best-branch arm; NewRepository registers the genesis hash at height 0 on every path", 3)
 
@@ -158,6 +179,19 @@ func checkC10(p *load.Program, r *kit.Report) {
 				elem := recvPtr(conn[0].Common().Args[0])
 				// allowed skips: elem == oldestBranch / elem == longestBranch
 				skips := kit.FindGuards(f, func(c ssa.Value) (bool, bool) {
+					// Branches{old root, old tip}.Includes(elem)
+					if call, ok := c.(*ssa.Call); ok && kit.CallID(call) == H+".Branches.Includes" && len(call.Call.Args) == 2 && call.Call.Args[1] == elem {
+						els := sliceLiteralElems(call.Call.Args[0])
+						if len(els) == 0 {
+							return false, false
+						}
+						for _, e := range els {
+							if !loadOfField(e, longestF) && !isOldestPhi(e) {
+								return false, false
+							}
+						}
+						return true, true
+					}
 					b, ok := c.(*ssa.BinOp)
 					if !ok || (b.Op != token.EQL && b.Op != token.NEQ) {
 						return false, false
@@ -181,7 +215,68 @@ func checkC10(p *load.Program, r *kit.Report) {
 				if reach.Has(header.Instrs[0]) {
 					bad = "a branch other than the old root and the old tip can be skipped without Connect: its headers drop out of the tree after Clean (" + reach.PathTo(header.Instrs[0], p.Pos) + ")"
 				}
+				// a skip goes on with the next branch: it must not end the loop (`break` for `continue`)
+				if bad == "" && len(skips) >= 1 {
+					var starts []kit.Pt
+					for _, e := range edgesOf(skips, true) {
+						starts = append(starts, kit.EdgeStart(e))
+					}
+					out := kit.Reach(f, starts, kit.Opts{StopAt: func(in ssa.Instruction) bool { return in == header.Instrs[0] || in == ssa.Instruction(conn[0]) }})
+					for _, ret := range kit.Returns(f) {
+						if out.Has(ret) {
+							bad = "skipping the old root / old tip ends the loop instead of going on with the next branch (" + out.PathTo(ret, p.Pos) + "): every branch that sorts after it is never reconnected and drops out of the tree and of the saved index"
+						}
+					}
+				}
 				r.Check(bad == "" && len(skips) >= 1, "COVER-ALL", "consolidate/reconnect-every-branch", posOf(p, conn[0]), "every branch except old root and old tip reaches Connect", bad)
+
+				// the list Connect searches for the parent is the list being built: a branch whose
+				// parent is another side branch finds it only there (the list is sorted parents first)
+				{
+					cc := conn[0].Common()
+					list := kit.Strip(cc.Args[len(cc.Args)-1])
+					ph, isPhi := list.(*ssa.Phi)
+					bad := ""
+					grows := func(v ssa.Value) bool {
+						return kit.DependsOn(v, func(x ssa.Value) bool {
+							c, ok := x.(*ssa.Call)
+							if !ok || len(c.Call.Args) != 2 {
+								return false
+							}
+							if b, ok := c.Call.Value.(*ssa.Builtin); !ok || b.Name() != "append" {
+								return false
+							}
+							if kit.Strip(c.Call.Args[0]) != list {
+								return false
+							}
+							for _, e := range sliceLiteralElems(c.Call.Args[1]) {
+								if ex, ok := kit.Strip(e).(*ssa.Extract); ok && ex.Index == 0 && ex.Tuple == conn[0].Value() {
+									return true
+								}
+							}
+							return false
+						})
+					}
+					switch {
+					case !isPhi:
+						bad = "Connect searches a fixed list (" + describe(list) + "), not the list the reconnected branches are added to: a branch whose parent is another side branch is not connected and drops out of the tree"
+					default:
+						found := false
+						for _, e := range ph.Edges {
+							if grows(e) {
+								found = true
+							}
+						}
+						if !found {
+							bad = "the list Connect searches does not grow by the branch just connected: a branch whose parent is another side branch is not connected and drops out of the tree"
+						} else if sb != nil {
+							if st, ok := sb.(*ssa.Store); ok && !kit.DependsOn(st.Val, func(x ssa.Value) bool { return x == ssa.Value(ph) }) {
+								bad = "the list stored as repo.branches is not the list the reconnected branches were added to"
+							}
+						}
+					}
+					r.Check(bad == "", "COVER-ALL", "consolidate/connect-searches-growing-list", posOf(p, conn[0]), "Connect searches the list under construction, which becomes repo.branches", bad)
+				}
 			}
 		}
 	}
@@ -404,4 +499,40 @@ func isOldestPhi(v ssa.Value) bool {
 		}
 	}
 	return false
+}
+
+// sliceLiteralElems: v is a slice literal `T{e0, e1, …}` built in this function (an array
+// allocation, one store per index, sliced whole); returns the elements, nil when v is anything else
+// or the array is written elsewhere.
+func sliceLiteralElems(v ssa.Value) []ssa.Value {
+	sl, ok := kit.Strip(v).(*ssa.Slice)
+	if !ok || sl.Low != nil || sl.High != nil {
+		return nil
+	}
+	al, ok := sl.X.(*ssa.Alloc)
+	if !ok || al.Referrers() == nil {
+		return nil
+	}
+	var out []ssa.Value
+	for _, ref := range *al.Referrers() {
+		switch x := ref.(type) {
+		case *ssa.Slice:
+			if x != sl {
+				return nil
+			}
+		case *ssa.IndexAddr:
+			if _, isConst := kit.ConstInt(x.Index); !isConst || x.Referrers() == nil || len(*x.Referrers()) != 1 {
+				return nil
+			}
+			st, ok := (*x.Referrers())[0].(*ssa.Store)
+			if !ok || st.Addr != ssa.Value(x) {
+				return nil
+			}
+			out = append(out, st.Val)
+		case *ssa.DebugRef:
+		default:
+			return nil
+		}
+	}
+	return out
 }
